@@ -34,6 +34,12 @@ func ProcRuns(w *vt.W, rng *rand.Rand, runs int) {
 		if rng.Intn(2) == 0 {
 			t = 1 + rng.Intn(4)
 		}
+		// "any number of worker threads": requests outside 1..GOMAXPROCS are clamped to GOMAXPROCS by NewProcessor
+		req := t
+		if rng.Intn(6) == 0 {
+			req = []int{0, -1, maxT + 1, maxT + 3}[rng.Intn(4)]
+			t = maxT
+		}
 		ns := []int{0, 1, t - 1, t, t + 1, 2*t + 1, 3 * t}
 		n := ns[rng.Intn(len(ns))]
 		if n < 0 {
@@ -49,13 +55,13 @@ func ProcRuns(w *vt.W, rng *rand.Rand, runs int) {
 			}
 		}
 		setPanicOps(panicOps)
-		fmt.Fprintf(os.Stderr, "procrun id=%d t=%d n=%d b=%d q=%d panics=%d\n", id, t, n, b, q, len(panicOps))
+		fmt.Fprintf(os.Stderr, "procrun id=%d t=%d (requested %d) n=%d b=%d q=%d panics=%d\n", id, t, req, n, b, q, len(panicOps))
 		if id%3 == 2 {
 			// Wait right after Close, with room for every operation and result so that
 			// nothing blocks: when Wait returns every operation must have been run
 			var ran int32
 			queue := make(chan concurrent.Operator, n+1)
-			p := concurrent.NewProcessor(queue, n+1, t)
+			p := concurrent.NewProcessor(queue, n+1, req)
 			for i := 1; i <= n; i++ {
 				p.Process(countOp{op(i), &ran})
 			}
@@ -67,24 +73,47 @@ func ProcRuns(w *vt.W, rng *rand.Rand, runs int) {
 				bad = fmt.Sprintf("Wait returned after Close with %d of %d operations run", done, n)
 			}
 			got := []int{}
+			closed := false
+			type res struct {
+				v   interface{}
+				err error
+			}
+			rc := make(chan res, 1)
+			go func() {
+				for {
+					v, err := p.Result()
+					rc <- res{v, err}
+					if v == nil && err == nil {
+						return
+					}
+				}
+			}()
+			deadline := time.After(10 * time.Second)
+		drain:
 			for {
-				v, err := p.Result()
-				if v == nil && err == nil {
-					break
+				select {
+				case r := <-rc:
+					if r.v == nil && r.err == nil {
+						closed = true
+						break drain
+					}
+					i, ok := resultOp(r.v, r.err)
+					if !ok {
+						bad = fmt.Sprintf("result (%v, %v) is not what any operation returned", r.v, r.err)
+					}
+					got = append(got, i)
+				case <-deadline:
+					bad = "result channel not closed within 10s of Wait returning"
+					break drain
 				}
-				i, ok := resultOp(v, err)
-				if !ok {
-					bad = fmt.Sprintf("result (%v, %v) is not what any operation returned", v, err)
-				}
-				got = append(got, i)
 			}
 			sort.Ints(got)
-			w.Emit(vt.Ev{"op": "procrun", "id": id, "t": t, "n": n, "b": n + 1, "q": n + 1, "results": got, "closed": true,
+			w.Emit(vt.Ev{"op": "procrun", "id": id, "t": t, "n": n, "b": n + 1, "q": n + 1, "results": got, "closed": closed,
 				"waited": true, "bad": bad})
 			continue
 		}
 		queue := make(chan concurrent.Operator, q)
-		p := concurrent.NewProcessor(queue, b, t)
+		p := concurrent.NewProcessor(queue, b, req)
 		go func() {
 			for i := 1; i <= n; i++ {
 				p.Process(op(i))
